@@ -424,6 +424,19 @@ func (x *Exec) merge(in []mergeEdge, tag string) (*State, Term) {
 			if !ok {
 				if ks, isStr := k.(string); isStr && strings.HasPrefix(ks, "calls:") {
 					v = IntLit(0) // a ghost call counter that was never incremented on this path
+				} else if g, isG := k.(*ssa.Global); isG && x.entry != nil && !x.pure {
+					// a package variable neither read nor written on this path: still its value at
+					// function entry (unknown if a call that may assign any variable ran)
+					t := g.Type().Underlying().(*types.Pointer).Elem()
+					if ev, ok := x.entry.cells[k]; ok && !e.st.gdirty {
+						v = ev
+					} else {
+						nv := u.W.Fresh("g."+g.Name(), u.W.SortOf(t))
+						if !e.st.gdirty {
+							x.entry.cells[k] = nv
+						}
+						v = nv
+					}
 				} else {
 					missing = true
 					break
@@ -488,6 +501,11 @@ func (x *Exec) merge(in []mergeEdge, tag string) (*State, Term) {
 	sort.Strings(names)
 	for _, k := range names {
 		ns.Heap(k, hk[k])
+	}
+	for _, e := range in {
+		if e.st.gdirty {
+			ns.gdirty = true
+		}
 	}
 	// alloc
 	sameAlloc := true
@@ -716,6 +734,14 @@ func (x *Exec) loopHeader(h *ssa.BasicBlock, ci *cfgInfo, pre *State, reach Term
 		}
 		old, ok := post.cells[key]
 		if !ok {
+			if g, isG := key.(*ssa.Global); isG {
+				// a package variable assigned in the loop and not yet read on this path: unknown at
+				// the loop head (must not fall back to its value at function entry)
+				t := g.Type().Underlying().(*types.Pointer).Elem()
+				nv := u.W.Fresh("h.g."+g.Name(), u.W.SortOf(t))
+				post.cells[key] = nv
+				x.assumeTypeInv(nv, t, reach, post)
+			}
 			continue
 		}
 		switch ov := old.(type) {
